@@ -177,6 +177,15 @@ PROPS = {
                         "the real linker chain is checked against an independent walk written in the harness; synthetic chains against the Coq model"],
         'partial': 'largely a data-plumbing property: theorems cover the derivation logic (protection table, auxv preference, cpuinfo selection is modelled and compared, linker chain); equality with the kernel view is differential. The proc-status stream is volatile and only its presence is checked',
     },
+    'C08': {
+        'abi_module': 'AbiC08',
+        'stages': quick_thorough(
+            [{'name': 'live', 'sub': 'c08', 'n': 6, 'timeout': 600, 'compat': lambda c, a, b: False}],
+            [{'name': 'live', 'sub': 'c08', 'n': 80, 'timeout': 3000}]),
+        'assumptions': ["identifiers / SONAMEs of mapped files: by construction for harness-written images, from the harness's independent section-based reader for system libraries and the vDSO",
+                        "effective-path naming is modelled on the fragment of EffPath.v (absolute names, slash-free non-empty SONAME)"],
+        'partial': 'module overlap freedom follows from C13 ordering for target-derived modules; with partially overlapping caller-supplied mappings it needs the stated hypothesis',
+    },
     'C13': {
         'abi_module': 'AbiC13',
         'stages': quick_thorough(
